@@ -29,10 +29,11 @@ theorem C19_string_total (p : Packet) (h : p.RenderInv) : p.string ≠ .panic :=
   | connect q =>
     simp only [Packet.RenderInv, Connect.WillInv] at h
     simp only [Packet.string]
-    cases he : q.encode? with
+    cases hg : q.fillG? with
     | some e => simp
     | none =>
       exfalso
+      have he := (Connect.fillG_sound q).1.mp hg
       simp only [Connect.encode?, Connect.body?, Connect.payload?, Option.map_eq_none_iff] at he
       by_cases hf : has q.flags Connect.fWillFlag = true
       · have := h hf
